@@ -20,14 +20,16 @@ Section Handle.
   Lemma R_start s m a x0 x' s1 :
     R sh s m -> owes (s_late s) a = false ->
     act_ast s a = Some x0 -> a_start x0 (iget (s_img s) (OAct a)) = Some x' ->
-    local_step s s1 a x' -> peers_ok (m_acts m) a = true -> binv sh s1 ->
+    local_step s s1 a x' -> peers_ok (m_acts m) a = true -> encl_ok (s_img s) a = true -> binv sh s1 ->
     exists m', mstep sh m (EvStart a) = Some m' /\ R sh s1 m'.
   Proof.
-    intros HR Hw Ha Hs [La Lf Li Lr Ln Lp Ll] Hp BI.
+    intros HR Hw Ha Hs [La Lf Li Lr Ln Lp Ll] Hp He BI.
     pose proof (R_acts sh s m HR a) as A. rewrite Ha, Hw in A.
     destruct (arel_start _ _ _ _ Hs A) as (B1 & B2 & A').
     eexists. split.
-    - apply mstep_start; auto. now rewrite (R_img sh s m HR).
+    - apply mstep_start; auto.
+      + now rewrite (R_img sh s m HR).
+      + destruct a as [sc g i|b q i]; simpl in *; auto. unfold ist in *. now rewrite (R_img sh s m HR).
     - apply (R_upd_rec sh s); auto.
       + rewrite Ll. apply (R_late sh s m HR).
       + intros. now rewrite Ll.
@@ -79,6 +81,7 @@ Section Handle.
       destruct (home_bseq s q i x0 x' HQ) as (Ha & LS).
       eapply R_start; eauto.
       + eapply peers_seq; eauto.
+      + simpl. pose proof (bi_seq sh s BI q _ HQ) as (S1 & _). rewrite S1. reflexivity.
       + eapply binv_home_bseq; eauto. destruct x0; simpl in Hs; try discriminate.
         destruct (_ && _); [|discriminate]. injection Hs as <-. discriminate.
   Qed.
